@@ -10,6 +10,13 @@ class Unrecognised(Exception):
     pass
 
 
+def _elem_keys(x):
+    """the generic-element terms of an iterable term (mk_elem distributes over joins)"""
+    if is_t(x, "phi"):
+        return _elem_keys(x[2]) + _elem_keys(x[3])
+    return [("elem", x)]
+
+
 def ev_int(t, env):
     """evaluate an integer / boolean term built from variables in env, constants, + - * % // comparisons, and/or/not, where"""
     if t in env:
@@ -78,6 +85,21 @@ def ev_int(t, env):
             lo, hi, st = (ev_int(x, env) for x in t[2][1:4])
             return base[lo:hi:st]
         return base[ev_int(t[2], env)]
+    if is_t(t, "fam"):
+        # a comprehension over finite sequences: bind the generic element(s) and evaluate the body for each
+        it = t[1]
+        if is_t(it, "zip"):
+            seqs = [ev_int(x, env) for x in it[1]]
+            rows = list(zip(*seqs))
+            return [ev_int(t[2], {**env, **{k: v for x, v in zip(it[1], row) for k in _elem_keys(x)}}) for row in rows]
+        if is_t(it, "enumerate"):
+            seq = list(ev_int(it[1], env))
+            return [ev_int(t[2], {**env, ("enumidx", it[1]): i, ("elem", it[1]): e}) for i, e in enumerate(seq)]
+        seq = list(ev_int(it, env))
+        return [ev_int(t[2], {**env, **{k: e for k in _elem_keys(it)}}) for e in seq]
+    if is_t(t, "call") and t[1] in (("global", "any"), ("global", "all")) and len(t[2]) == 1 and not t[3]:
+        vs = ev_int(t[2][0], env)
+        return any(vs) if t[1][1] == "any" else all(vs)
     if is_t(t, "call") and t[1] == ("global", "sorted") and len(t[2]) == 1 and t[3] in ((), (("key", ("global", "len")),)):
         v = ev_int(t[2][0], env)
         return sorted(v, key=len) if t[3] else sorted(v)
